@@ -18,7 +18,9 @@ type verifConn struct {
 	closed int
 }
 
-func newVerifConn() *verifConn { return &verifConn{in: make(chan []byte, 2), done: make(chan struct{})} }
+func newVerifConn() *verifConn {
+	return &verifConn{in: make(chan []byte, 2), done: make(chan struct{})}
+}
 
 func (c *verifConn) Send([]byte) error { return nil }
 func (c *verifConn) Recv() ([]byte, error) {
@@ -70,17 +72,21 @@ type verifSvcLog struct {
 }
 
 type verifSvc struct {
-	log       *verifSvcLog
-	id        int
-	failAssig bool
-	assigner  jrpc2.Assigner
-	finished  int
+	log        *verifSvcLog
+	id         int
+	failAssig  bool
+	assigner   jrpc2.Assigner
+	finished   int
+	duringInit func() // runs inside Assigner (e.g. the loop's context ends at that moment)
 }
 
 func (s *verifSvc) Assigner() (jrpc2.Assigner, error) {
 	s.log.assigns++
 	if s.failAssig {
 		return nil, errors.New("assigner failed")
+	}
+	if s.duringInit != nil {
+		s.duringInit()
 	}
 	s.log.running++
 	return s.assigner, nil
@@ -128,6 +134,11 @@ func Harness_C20_loop() {
 	newService := func() Service {
 		log.news++
 		s := &verifSvc{log: log, id: len(svcs), failAssig: nondetBool("assigner-fails"), assigner: verifNoMethods{}}
+		if !s.failAssig && nondetBool("context-ends-during-init") {
+			// the connection was accepted and its service initialises while the
+			// context ends: it still gets its server, and with it its Finish
+			s.duringInit = cancel
+		}
 		svcs = append(svcs, s)
 		return s
 	}
